@@ -11,7 +11,7 @@ Theorem C20_source_facts :
   handle_compares_ge = true /\
   set_conn_level_shape = true /\ module_sets_own_name = true /\ set_all_iterates_all_modules = true /\
   handle_logging_shape = true /\ reset_sets_all_off = true /\ remove_calls_reset = true /\ ident_calls_reset = true /\
-  send_log_msg_shape = true /\ rollover_guard_max_days = true /\ rollover_lists_own_logs = true /\
+  send_log_msg_shape = true /\ activation_handlers_leave_logging_alone = true /\ rollover_guard_max_days = true /\ rollover_lists_own_logs = true /\
   rollover_removes_old_earlier = true /\
   handle_request_holds_lock = true /\ close_path_takes_no_lock = true /\ subscriptions_touched_in_three_places = true.
 Proof. repeat split; reflexivity. Qed.
@@ -101,6 +101,42 @@ Theorem C20_others_unaffected : forall mods c c' ops,
   deliv_to c' (trace_from mods [] ops) =
   deliv_to c' (trace_from mods [] (filter (fun o => negb (by_conn c o)) ops)).
 Proof. intros mods c c' ops N. apply noninterference; auto using wf_nil. Qed.
+
+(* Only `logging ... off`, *IDN? and disconnect stop delivery -- `activate` / `deactivate` (event subscriptions) do not.
+   Frame, for ALL node contents, ALL histories, any number of connections, activation requests with or without specifier
+   (accepted or rejected) anywhere in the history:
+   (1) each such request leaves the subscription table as it is, sends no log message;
+   (2) the table after a history, every message sent during it, and what any later record delivers are those of the
+       history with all activation requests deleted (without_activation = filter); inserting activation requests of
+       anybody anywhere changes nothing;
+   (3) a subscription (c chose level x for m) survives every continuation of the history that consists of activation
+       requests of anybody and arbitrary operations of OTHER connections: c still receives the records of m at or above x.
+   Rests on the obligation activation_handlers_leave_logging_alone of C20_source_facts (handle_activate / handle_deactivate
+   reach neither reset_connection nor set_all_log_levels nor setRemoteLogging; seed C20-8 broke exactly that). *)
+Theorem C20_activation_requests_do_not_touch_logging : forall mods,
+  (forall t o, is_activation o = true -> step mods t o = (t, ([], None))) /\
+  (forall ops,
+     run mods ops = run mods (without_activation ops) /\
+     trace_from mods [] ops = trace_from mods [] (without_activation ops) /\
+     (forall m lv py, handle (run mods ops) m lv py = handle (run mods (without_activation ops)) m lv py) /\
+     (forall m c, chosen (run mods ops) m c = spec_choice mods (rev (without_activation ops)) m c)) /\
+  (forall ops1 acts ops2, forallb is_activation acts = true ->
+     run mods (ops1 ++ acts ++ ops2) = run mods (ops1 ++ ops2)) /\
+  (forall ops later m c x,
+     chosen (run mods ops) m c = Some x ->
+     (forall o, In o later -> is_activation o = true \/ by_conn c o = false) ->
+     chosen (run mods (ops ++ later)) m c = Some x /\
+     forall lv py, (x <= lv)%Z -> In (c, m, record_name lv py) (handle (run mods (ops ++ later)) m lv py)).
+Proof.
+  intros mods. split; [intros; apply step_activation; assumption|]. split; [|split].
+  - intros ops. split; [apply run_without_activation|]. split; [apply trace_from_without_activation|]. split.
+    + intros. rewrite <- run_without_activation. reflexivity.
+    + intros. rewrite run_without_activation. apply run_refines_spec.
+  - intros; apply run_insert_activation; assumption.
+  - intros ops later m c x H A.
+    pose proof (subscription_survives mods ops later m c x H A) as S. split; [exact S|].
+    intros lv py L. apply routing_iff. exists x. split; [|exact L]. rewrite <- run_refines_spec. exact S.
+Qed.
 
 (* rejected requests (invalid level of any kind, unknown module) leave every subscription as it was *)
 Theorem C20_rejected_request_no_effect : forall mods t c spec d,
@@ -297,6 +333,14 @@ Example C20_demo :
   [(0, mA, s_info); (1, mB, s_warning); (1, mA, s_error); (1, mB, s_critical)].
 Proof. vm_compute. reflexivity. Qed.
 
+(* non-vacuity of the activation frame: connection 0 enables mA, activates, deactivates (with and without specifier) --
+   it still gets the record; connection 1 re-identified -- it does not *)
+Example C20_demo_activation :
+  trace_from [mA; mB] []
+    [OLogging 0 (Some mA) (LStr s_debug); OLogging 1 None (LStr s_debug); OActivate 0 None; ODeactivate 0 (Some mA);
+     ODeactivate 0 None; OIdent 1; OEmit mA 20%Z s_info] = [(0, mA, s_info)].
+Proof. vm_compute. reflexivity. Qed.
+
 (* non-vacuity of the concurrent theorems: connection 0 (subscribed to mA) closes while connection 1 enables mA; an
    interleaved schedule in which the close writes while the request holds the lock runs to completion *)
 Definition demo_progs : list (list aop) :=
@@ -357,6 +401,7 @@ Print Assumptions C20_internal_module_can_be_enabled.
 Print Assumptions C20_exported_only_stop_keeps_subscription.
 Print Assumptions C20_others_unaffected.
 Print Assumptions C20_rejected_request_no_effect.
+Print Assumptions C20_activation_requests_do_not_touch_logging.
 Print Assumptions C20_routing_linearizable.
 Print Assumptions C20_entry_written_by_one_thread.
 Print Assumptions C20_concurrent_routing.
